@@ -48,6 +48,13 @@ func pokeWithCustomHooks(id uu.ID, text string) {
 	var u uu.ID
 	_ = u.UnmarshalText([]byte(text))
 	_ = json.Unmarshal([]byte(`"`+text+`"`), &u)
+	// second stage: a Formatter that fails (after writing something), used once, before the defaults come back
+	uu.Formatter = func(buf []byte, id uu.ID, f uu.Format) ([]byte, error) {
+		return append(buf, "part"...), errors.New("formatter refused")
+	}
+	_, _ = id.String(), id.URN()
+	_ = fmt.Sprintf("%s %u", id, id)
+	_, _ = id.MarshalText()
 }
 
 func setLimit(l int) func() {
